@@ -9,9 +9,12 @@
    Tied to the code by K-macro (the model sorts where, and only where, the code sorts: the logs agree run by run) and
    by the C16 check, which re-runs the implementation in subprocesses under different PYTHONHASHSEED values and heap
    layouts and on both engines and compares the traces byte for byte (harness/props/c16.py).
-   PARTIAL: region entry order follows document order in code and model alike (no set involved); generated identifiers
-   (actor ids, timer keys) are outside the model and only covered by the subprocess comparison. *)
-From XSM Require Import Model.Macro Proofs.SortP Proofs.OrderP Proofs.HistP.
+   Beyond the individual reads, C16_event_oracle_independent / C16_runs_oracle_independent lift this to whole steps and
+   whole runs (relational proof through selection, exit, actions, history, entry, done events, scheduling, rollback).
+   PARTIAL: region entry order follows document order in code and model alike (no set involved); transitions targeting
+   history states are outside the whole-step theorems; generated identifiers (actor ids, timer keys) are outside the
+   model and only covered by the subprocess comparison. *)
+From XSM Require Import Model.Macro Proofs.SortP Proofs.OrderP Proofs.HistP Proofs.LegalP Proofs.DescentP Proofs.InvariantP Proofs.PermP Proofs.SelectP.
 From Coq Require Import Permutation.
 
 (* sorting with a strict total order gives one result per SET *)
@@ -59,6 +62,35 @@ Print Assumptions C16_reported_independent.
 Theorem C16_guards_independent : forall m C1 C2 cx g, Permutation C1 C2 -> geval m C1 cx g = geval m C2 cx g.
 Proof. exact geval_perm. Qed.
 Print Assumptions C16_guards_independent.
+
+(* WHOLE STEPS AND WHOLE RUNS.  Two interpreter states that differ only in the order in which the active set is listed
+   (`eqv`: configurations are permutations of each other, every other field - log, context, history, queue, status,
+   output, clock, timers - is EQUAL) are taken by the processing of any event, and by any sequence of sends, to two
+   states that again differ only in that order: the logs (every action with its event, every entry and exit, every hook
+   and subscriber call with the configuration it is shown) are identical.  For every well-formed machine with distinct
+   state ids, declared non-history initials and no transition targeting the root or a history state, from any legal
+   configuration.  The one order-sensitive read of the code - the search for "the" active child in the done-ness check -
+   is shown harmless because the configuration is, at that point, contained in a legal one. *)
+Theorem C16_event_oracle_independent : forall m, wf m = true -> twf m = true -> good_initials m = true -> safe_targets m -> ids_distinct m ->
+  forall eng pr ev s1 s2, eqv m s1 s2 -> Legal m (s_cfg s1) ->
+  eqv m (fst (process_event eng pr m ev s1)) (fst (process_event eng pr m ev s2))
+  /\ snd (process_event eng pr m ev s1) = snd (process_event eng pr m ev s2).
+Proof. exact process_event_eqv. Qed.
+Print Assumptions C16_event_oracle_independent.
+
+Theorem C16_runs_oracle_independent : forall m, wf m = true -> twf m = true -> good_initials m = true -> safe_targets m -> ids_distinct m ->
+  forall evs s1 s2, eqv m s1 s2 -> Legal m (s_cfg s1) ->
+  eqv m (fold_left (fun s ev => catch (sync_send m ev) s) evs s1) (fold_left (fun s ev => catch (sync_send m ev) s) evs s2).
+Proof. exact sends_eqv. Qed.
+Print Assumptions C16_runs_oracle_independent.
+
+Theorem C16_eqv_means_same_observations : forall m s1 s2, eqv m s1 s2 ->
+  s_log s1 = s_log s2 /\ s_ctx s1 = s_ctx s2 /\ s_hist s1 = s_hist s2 /\ s_status s1 = s_status s2 /\ s_output s1 = s_output s2
+  /\ sort_nat (s_cfg s1) = sort_nat (s_cfg s2).
+Proof.
+  intros m s1 s2 H. destruct (eqv_fields m s1 s2 H) as [Hh [Hc [_ [Hs [Ho [Hl _]]]]]]. repeat split; try assumption. now apply (eqv_sorted m).
+Qed.
+Print Assumptions C16_eqv_means_same_observations.
 
 (* the side condition is decidable, and holds of every machine the harness builds (ids are dotted paths) *)
 Theorem C16_ids_distinct_checkable : forall m, ids_distinctb m = true -> ids_distinct m.
